@@ -218,6 +218,12 @@ func (h *Handler) Handle(req, resp dhcpv6.DHCPv6) (dhcpv6.DHCPv6, bool) {
 			if satisfied.Test(uint(i)) {
 				continue
 			}
+			if prefix.Prefix != nil && len(prefix.Prefix.IP) == 0 && prefix.Prefix.Mask == nil &&
+				len(iapdResp.Options.Options) > 0 {
+				// No hint at all means "whatever I have, or else something new": this
+				// IA_PD was already answered, do not consume another block for it
+				continue
+			}
 
 			if prefix.Prefix == nil {
 				// XXX: replace usage of dhcp.OptIAPrefix with a better struct in this inner
